@@ -65,7 +65,7 @@ def run(tier, vd):
         return False
     canary_check(vd, "CsumTrace", tf, mut, "K1", "c08.K1", max_runs=1)
     vd.cov["exhaustive"] = True
-    vd.assumptions += ["checksum capabilities: default (compute and verify everything); offload settings are not varied", "dense inputs up to 2048 bytes, sparse inputs (<= 4 non-zero bytes) up to 65535 bytes"]
+    vd.assumptions += ["checksum capabilities: default (compute and verify everything), except every eighth run of the neigh world, whose device takes over the IPv4 header checksum on transmit; other offload settings are not varied", "dense inputs up to 2048 bytes, sparse inputs (<= 4 non-zero bytes) up to 65535 bytes"]
 
 
 def replay(obj, vd):
